@@ -31,6 +31,10 @@ def main():
             key = json.dumps(c, sort_keys=True)
             res = B.batch_run(chaos.ChaosModel, {"seed": [s, s], "cfg": key}, collectors="digest", processes=2)
             out.append(sorted(r[-1][2] for r in res))
+            if len(out) <= 2:       # the same model behind a keyword-only `seed` parameter, serial and parallel
+                for procs in (1, 2):
+                    res = B.batch_run(chaos.KwChaosModel, {"seed": [s], "cfg": key}, collectors="digest", processes=procs)
+                    out[-1].extend(r[-1][2] for r in res)
     print("DIGESTS " + json.dumps(out))
 
 
